@@ -290,14 +290,14 @@ func main() {
 	// the generated operations with index % shards == shard: the generated executor spawns a
 	// goroutine per concurrent field, and cross-thread goroutine hand-offs dominated the run time
 	// when one process used many threads.
-	type plan struct{ n, fullGate, httpMax, histMax, shards int }
+	type plan struct{ n, fullGate, httpMax, histMax, ctxMax, shards int }
 	cpus := runtime.NumCPU()
-	plans := []plan{{4, 3, 4, 4, max(1, cpus/2)}, {4, 3, 4, 4, max(1, cpus/2)}}
+	plans := []plan{{4, 3, 4, 4, 4, max(1, cpus/2)}, {4, 3, 4, 4, 4, max(1, cpus/2)}}
 	if !quick {
 		// the layouts differ only in the template that emits Complexity() (generated!.gotpl vs
 		// root_.gotpl); every "Type.field" case of the alphabet is already reached at 4 nodes, so
 		// the deeper enumeration is spent on one layout
-		plans = []plan{{5, 4, 5, 5, max(1, cpus-max(1, cpus/8))}, {4, 4, 4, 4, max(1, cpus/8)}}
+		plans = []plan{{5, 4, 5, 5, 5, max(1, cpus-max(1, cpus/8))}, {4, 4, 4, 4, 4, max(1, cpus/8)}}
 	}
 
 	results := make([]*result, len(layouts))
@@ -318,7 +318,7 @@ func main() {
 				go func(sh int) {
 					defer sw.Done()
 					parts[sh] = runHarness(bin, sh, "-layout", l.name, "-tier", c.Tier, "-n", fmt.Sprint(pl.n), "-fullgate", fmt.Sprint(pl.fullGate),
-						"-http", fmt.Sprint(pl.httpMax), "-hist", fmt.Sprint(pl.histMax), "-budget", fmt.Sprint(budget), "-shard", fmt.Sprint(sh), "-shards", fmt.Sprint(pl.shards))
+						"-http", fmt.Sprint(pl.httpMax), "-hist", fmt.Sprint(pl.histMax), "-ctx", fmt.Sprint(pl.ctxMax), "-budget", fmt.Sprint(budget), "-shard", fmt.Sprint(sh), "-shards", fmt.Sprint(pl.shards))
 				}(sh)
 			}
 			sw.Wait()
@@ -367,7 +367,7 @@ func main() {
 		broken("layouts explored different spaces: %d vs %d", results[0].Counts["op_x_assignment"], results[1].Counts["op_x_assignment"])
 	}
 
-	evals := total["calculate_calls"] + total["gate_runs"] + total["http_runs"] + total["history_requests"] + total["safeadd_cells"]
+	evals := total["calculate_calls"] + total["gate_runs"] + total["http_runs"] + total["history_requests"] + total["ctx_fault_calculate_calls"] + total["ctx_fault_gate_runs"] + total["ctx_fault_http_runs"] + total["safeadd_cells"]
 	c.Cov["evaluations"] = evals
 	c.Cov["distinct_nontrivial"] = results[0].Counts["distinct_nontrivial"]
 	c.Cov["rule"] = "distinct (operation, custom-complexity assignment) pairs (per layout; identical in both) whose reference value takes at least one custom function's value or a maximum over implementors with differing costs, i.e. is not the plain node count"
@@ -383,6 +383,7 @@ func main() {
 		"limits":              "{0, 1, c-1, c, c+1, maxInt} (de-duplicated, c = reference complexity)",
 		"executor_gate":       fmt.Sprintf("every limit x every assignment for operations with <= %d nodes (layout single-file) / <= %d nodes (layout follow-schema); for larger operations every limit x the first assignment reaching each distinct reference value", plans[0].fullGate, plans[1].fullGate),
 		"http":                fmt.Sprintf("operations with <= %d nodes, no custom function, limits {c-1, c} through handler.Server + transport.POST (httptest recorder)", plans[0].httpMax),
+		"context_faults":      "fault enumeration over where the request context becomes done: cancelled before CreateOperationContext, expired deadline, and cancelled inside the k-th custom complexity function call for EVERY k of the walk (k = 1..number of calls measured on a live walk). For every operation: (a) the assignment putting const 1 on every Object.field the operation touches (every field node of the walk, each implementor for interface selections, is a call position), (b) no custom function (the two already-done contexts); for operations within the full-gate size additionally every single-field assignment. Per placement: complexity.Calculate(ctx) and the executor with FixedComplexityLimit at limits {c-1, c}; plus POST through handler.Server with an already cancelled / expired request context, no custom function, limits {c-1, c}. Stub resolvers never look at ctx.",
 		"histories":           "request sequences through ONE long-lived executor with an LRU query-document cache and one extension instance (fresh per history), each request judged by the single-request oracle: (a) variable family - operations using $v with header ($v: Int): variants v=2, v=9, absent, null share the query text; for every ordered pair the triple a>b>a at limit min(ca,cb) and the pair a>b at max(ca,cb), FixedComplexityLimit, for the assignments where the variants' reference values can differ (child+x+10*len(y) on Query.arg and/or Query.targ; for operations within the full-gate size also combined with any one other deviating field) and for no custom function; (b) limit family - every (operation, assignment) that gets the executor gate: the same request at per-request limits c > c-1 > c through ComplexityLimit{Func} (limit taken from a request header); (c) operationName family - operations with <= 2 nodes in a document next to a more expensive Decoy operation (both document orders): [Main], [Decoy>Main], [Main>Decoy], [Main>Decoy>Main] at limits {c-1, c, c(Decoy)}, FixedComplexityLimit",
 		"layouts":             []string{"single-file", "follow-schema"},
 	}
@@ -396,6 +397,7 @@ func main() {
 		"Saturation: every intermediate sum is min(exact, maxInt); the custom functions of the alphabet saturate themselves (they are the user's code, not gqlgen's).",
 		"'Rejected' means: an error with extensions.code = COMPLEXITY_LIMIT_EXCEEDED, null/absent data and an empty resolver log. The HTTP status is not asserted (the extension's doc comment says 422, the code and gqlgen's own tests say 200). 'Not rejected' means: data, number of errors and resolver log equal those of a run without the extension.",
 		"safeAdd is observed through an export shim added by go build -overlay; one statement is inserted at the top of safeAdd (go/ast rewrite of the current source) to count calls with a negative operand coming from the walker: the count must be 0, so only the non-negative quadrant of the grid is reachable from Calculate.",
+		"Under a context fault the oracle is: Calculate and ComplexityStats equal the reference (same as with a live context); over the limit => empty resolver log and no data (whether the reported error is the complexity error or a cancellation is not constrained); at or below the limit => no COMPLEXITY_LIMIT_EXCEEDED error (whether execution then proceeds is not constrained).",
 		"A history starts from a freshly constructed executor/extension/cache; the reference is stateless, so every request of a history has the same expected outcome as if it were sent alone.",
 		"Stub resolvers return non-null values so that nested resolvers run; resolver errors, subscriptions and websocket transport are not part of this check.",
 	}
